@@ -21,6 +21,7 @@ EXPLANATION = (
     "future mid-frame leaves the connection poisoned. WebSocket sends are message-atomic (tungstenite keeps the unsent "
     "remainder in the sink) and are exempt by rule. Not decided: stalls of arbitrary duration / kernel buffer sizes."
     ' The only data-carrying WebSocket message built anywhere in the crate is Binary (no Text / raw Frame fragments with awaits between them).'
+    " The write section of an async writer ends where no write primitive and no test of a primitive's result is reachable any more; awaits that follow it in the same function (a burst sender waiting for its responses) are outside it."
 )
 ASSUMPTIONS = [
     "a tokio/std Mutex guard excludes other writers while it is live",
